@@ -322,3 +322,141 @@ func (c *ctxT) queuedRandom(rnd *common.Rand, n int) {
 		c.queued(cfg, cl, w[0], w[1], wt)
 	}
 }
+
+// ---- round E: requests that are still waiting for their response (seeded C05-22) -----------
+//
+//	pend <n> <same|diff> <entry> <ns> <from> <start|-> <toks> <form>   ->  the observation of the `tx` line
+//
+// Session state left behind by EARLIER calls as a dimension of every transmit call: n requests
+// (SendIQ get, SendMessage, SendPresence in turn) are on the wire and still waiting for their
+// response - with the SAME id as the call under test or with other ids - when the call is made.
+// The property does not know such state: the element on the wire denotes the call's arguments
+// (the caller's id included), so the observation must be that of the plain `tx` line and the
+// oracle is the one of every single call (`check`).
+
+func plainID(toks []xml.Token) string {
+	if len(toks) == 0 {
+		return ""
+	}
+	s, ok := toks[0].(xml.StartElement)
+	if !ok {
+		return ""
+	}
+	for _, a := range s.Attr {
+		if a.Name.Space == "" && a.Name.Local == "id" {
+			return a.Value
+		}
+	}
+	return ""
+}
+
+func (c *ctxT) pending(cfg cfgT, cl call, n int, mode string) {
+	r := c.r
+	den := cl.denoted()
+	id := plainID(den)
+	if c.stalls >= 3 || den == nil || (mode == "same" && id == "") || n < 1 {
+		return
+	}
+	rs, err := newSess(cfg)
+	if err != nil {
+		return
+	}
+	ctx, cancel := context.WithCancel(context.Background())
+	defer cancel()
+	q := el("urn:pend", "q", nil)
+	for i := 0; i < n; i++ {
+		pid := id
+		if mode != "same" {
+			pid = fmt.Sprintf("other-%d", i)
+		}
+		i := i
+		go common.Recover(func() {
+			switch i % 3 {
+			case 0:
+				if resp, _ := rs.S.SendIQ(ctx, reader(el("", "iq", at("type", "get", "id", pid), q...))); resp != nil {
+					resp.Close()
+				}
+			case 1:
+				if resp, _ := rs.S.SendMessage(ctx, reader(el("", "message", at("type", "chat", "id", pid), q...))); resp != nil {
+					resp.Close()
+				}
+			default:
+				if resp, _ := rs.S.SendPresence(ctx, reader(el("", "presence", at("id", pid), q...))); resp != nil {
+					resp.Close()
+				}
+			}
+		})
+		// one after the other: each is on the wire (so registered) before the next is made
+		deadline := time.Now().Add(3 * time.Second)
+		for {
+			toks, perr := parseInStream(cfg.ns, rs.Out.Bytes())
+			els, _ := splitTop(toks)
+			if perr == nil && len(els) == i+1 {
+				break
+			}
+			if time.Now().After(deadline) {
+				c.stalls++
+				return
+			}
+			time.Sleep(200 * time.Microsecond)
+		}
+	}
+	rs.Out.Take()
+	line := fmt.Sprintf("pend %d %s %s", n, mode, strings.TrimPrefix(cl.line(cfg), "tx "))
+	lines := []string{r.Prop + " " + line}
+	status := exec(rs.S, cl)
+	wire := rs.Out.Take()
+	was := c.failed
+	c.failed = false
+	obs := c.check(cfg, cl, status, wire, lines)
+	c.failed = c.failed || was
+	r.Line(line, obs)
+	r.Case(line, status == "ok", fmt.Sprintf("pend/%s/%s/%s", mode, cl.entry, strings.SplitN(cl.form, ":", 2)[0]))
+}
+
+func (c *ctxT) pendingCorpus(cfg cfgT) {
+	q := el("urn:a", "query", at("a", "1"))
+	st := xml.StartElement{Name: xml.Name{Local: "message"}, Attr: at("to", "x@example.org", "id", "dup-1")}
+	calls := []call{
+		{entry: "iq", form: "reader", toks: el("", "iq", at("type", "get", "id", "dup-1"), q...)},
+		{entry: "iq", form: "reader", toks: el("", "iq", at("type", "set", "id", "dup-1"), q...)},
+		{entry: "iq", form: "reader", toks: el("", "iq", at("type", "result", "id", "dup-1"), q...)},
+		{entry: "iq", form: "el", toks: el("", "iq", at("type", "get", "id", "dup-1"), q...)},
+		{entry: "iq", form: "encv", toks: el("", "iq", at("type", "get", "id", "dup-1"), q...)},
+		{entry: "msg", form: "reader", toks: el("", "message", at("type", "chat", "id", "dup-1"), q...)},
+		{entry: "msg", form: "el", toks: el("", "message", at("type", "chat", "id", "dup-1"), q...)},
+		{entry: "pres", form: "reader", toks: el("", "presence", at("id", "dup-1"), q...)},
+		{entry: "pres", form: "encv", toks: el("", "presence", at("id", "dup-1"))},
+		{entry: "send", form: "reader", toks: el("", "iq", at("type", "get", "id", "dup-1"), q...)},
+		{entry: "sendel", form: "reader", toks: q, start: &st},
+		{entry: "enc", form: "marshaler", toks: el("", "message", at("id", "dup-1"), q...)},
+		{entry: "tw", form: "reader", toks: el("", "presence", at("id", "dup-1"))},
+	}
+	for _, cl := range calls {
+		c.pending(cfg, cl, 1, "same")
+		c.pending(cfg, cl, 3, "same")
+		c.pending(cfg, cl, 2, "diff")
+	}
+}
+
+func (c *ctxT) pendingRandom(rnd *common.Rand, n int) {
+	for i := 0; i < n; i++ {
+		cfg := cfgs[rnd.Intn(len(cfgs))]
+		var cl call
+		for k := 0; ; k++ {
+			cl = c.genCall(rnd, 0)
+			if cl.entry == "reply" || cl.entry == "replyel" || cl.form == "writerto" || cl.denoted() == nil {
+				continue
+			}
+			if k < 20 && plainID(cl.denoted()) == "" {
+				continue // prefer calls that carry an id of their own
+			}
+			break
+		}
+		mode := "same"
+		if rnd.Chance(1, 4) || plainID(cl.denoted()) == "" {
+			mode = "diff"
+		}
+		c.pending(cfg, cl, 1+rnd.Intn(3), mode)
+	}
+}
